@@ -129,7 +129,7 @@ def run_case(kind, params, ctx):
             b[pos] ^= 1 << (bit % 8)
             vmsg = bytes(b)
         elif mut == "flag_byte":
-            flag = flag ^ (1 << (bit % 8)) or 1
+            flag = [flag ^ (1 << (bit % 8)), 0x00, 0x00, 0xFF, 0x04, 0x80][bit % 6]
         elif mut == "flip_pub":
             b = bytearray(pub)
             b[(bit // 8) % len(b)] ^= 1 << (bit % 8)
